@@ -46,14 +46,15 @@ def rotatePsi (n : Nat) (us : Fin n → M2 α) (psi : Nat → C α) : Nat → C 
 /-- rows of a complex matrix: the `...` axes `_kron_mult` carries along -/
 abbrev Row (α : Type) := Nat → C α
 
+/-- entrywise sum of two rows -/
+def addRow (a b : Row α) : Row α := fun j => C.add (a j) (b j)
+/-- a complex scalar times a row -/
+def actRow (c : C α) (a : Row α) : Row α := fun j => C.mul c (a j)
+
 /-- `rotate_rho`: `_kron_mult(us, conjugate(_kron_mult(us, rho)))`,
 `cplx.conjugate` = conjugate transpose of a matrix. Entry `(i, j)` of the result. -/
 def rotateRho (n : Nat) (us : Fin n → M2 α) (rho : Nat → Nat → C α) : Nat → Nat → C α :=
-  let addR : Row α → Row α → Row α := fun a b j => C.add (a j) (b j)
-  let actR : C α → Row α → Row α := fun c a j => C.mul c (a j)
-  let r1 : Nat → Row α := kronMult addR actR n us rho
-  let r1H : Nat → Row α := fun i j => C.conj (r1 j i)
-  kronMult addR actR n us r1H
+  kronMult addRow actRow n us (fun i j => C.conj (kronMult addRow actRow n us rho j i))
 
 /-- coefficient `Π_{s ∈ rot} U_s[σ_s, σ'_s]` of `_rotate_basis_state` (`Ut`), for an expanded state `σ'`. -/
 def rotCoeff (n : Nat) (us : Fin n → M2 α) (rot : Fin n → Bool) (σ σ' : Fin n → Bool) : C α :=
